@@ -141,6 +141,7 @@ type pkgjsonCase struct {
 	Input    string    `json:"input"`
 	Output   string    `json:"output,omitempty"`
 	RereadOK bool      `json:"reread_ok"`
+	FromRead bool      `json:"from_read"` // every update was built from a requirement Read reported
 	Reqs     []string  `json:"reqs,omitempty"`
 	Reread   []string  `json:"reread,omitempty"`
 }
@@ -161,8 +162,8 @@ func (c *pkgjsonCase) coq() string {
 	if len(ups) > 0 {
 		l = cf.List(ups)
 	}
-	return fmt.Sprintf("{| jc_doc := %s; jc_input := %s; jc_updates := %s; jc_obs := %s; jc_reread_ok := %s |}",
-		c.Doc.coq(), cf.Str(c.Input), l, obs, cf.Bool(c.RereadOK))
+	return fmt.Sprintf("{| jc_doc := %s; jc_input := %s; jc_updates := %s; jc_obs := %s; jc_reread_ok := %s; jc_from_read := %s |}",
+		c.Doc.coq(), cf.Str(c.Input), l, obs, cf.Bool(c.RereadOK), cf.Bool(c.FromRead))
 }
 
 func reqString(r resolve.RequirementVersion) string {
@@ -206,6 +207,15 @@ func (c *pkgjsonCase) run(pickUpdates func(reqs []resolve.RequirementVersion) []
 	}
 	for _, r := range reqs {
 		c.Reqs = append(c.Reqs, reqString(r))
+	}
+	c.FromRead = len(c.Updates) > 0
+	for _, u := range c.Updates {
+		found := false
+		for _, r := range reqs {
+			ka, has := r.Type.GetAttr(dep.KnownAs)
+			found = found || (u.Name == r.Name && u.Alias == has && (!has || u.KnownAs == ka) && u.From == r.Version)
+		}
+		c.FromRead = c.FromRead && found
 	}
 	ups := make([]result.PackageUpdate, len(c.Updates))
 	for i, u := range c.Updates {
@@ -308,9 +318,9 @@ func pickName(rng *rand.Rand, exotic bool) string {
 	}
 }
 
-// aliasTarget is the real package an alias key stands for. It is a function of the key, and never one
-// of the plain keys: Read dedupes by real package name in Go map order, so two keys of one section that
-// resolve to the same package would make Read itself nondeterministic (not the writer's business).
+// aliasTarget is a real package that only this alias key stands for (a function of the key, never one of the
+// plain keys). Since the reader merges by requirement key (package + alias) alias twins are deterministic too and
+// are generated next to these.
 func aliasTarget(key string) string {
 	h := fmt.Sprintf("%x", key)
 	if strings.HasPrefix(key, "@") {
@@ -376,7 +386,14 @@ func genDoc(rng *rand.Rand, exotic bool) jDoc {
 				used[name] = true
 				ver := pick(rng, npmVersions)
 				if rng.Intn(6) == 0 { // alias: key is the alias, value npm:real@ver
-					ver = "npm:" + aliasTarget(name) + "@" + ver
+					switch rng.Intn(3) {
+					case 0: // aliased to its own name (scoped names included)
+						ver = "npm:" + name + "@" + ver
+					case 1: // a target of its own
+						ver = "npm:" + aliasTarget(name) + "@" + ver
+					default: // alias twins: several keys, in one section or across sections, for one real package
+						ver = "npm:" + pick(rng, append(append([]string{}, plainNames[:6]...), scopedNames[:3]...)) + "@" + ver
+					}
 				}
 				if rng.Intn(25) == 0 { // non-registry requirement, skipped by Read
 					ver = pick(rng, []string{"git+https://example.com/r.git", "file:../x", "user/repo"})
@@ -463,6 +480,20 @@ func (pkgjsonEmitter) generate(rng *rand.Rand, n int) []anyCase {
 		[]jUpdate{{Name: "real", KnownAs: "al", Alias: true, From: "^1.0.0", To: "^1.2.0"}})
 	fixed("boundary", simpleDoc(map[string][][2]string{"dependencies": {{"@types/socket.io", "^1.0.0"}, {"@types/node", "^18.0.0"}}}, []string{"dependencies"}),
 		[]jUpdate{{Name: "@types/socket.io", From: "^1.0.0", To: "^3.0.0"}, {Name: "@types/node", From: "^18.0.0", To: "^20.0.0"}})
+	fixed("boundary", simpleDoc(map[string][][2]string{"dependencies": {{"lodash", "npm:lodash@^4.17.0"}, {"@types/node", "npm:@types/node@^18.0.0"}}}, []string{"dependencies"}),
+		[]jUpdate{{Name: "lodash", KnownAs: "lodash", Alias: true, From: "^4.17.0", To: "^4.17.21"}})
+	{ // the same, with the update built from what Read reports (whatever attributes it carries)
+		c := &pkgjsonCase{Stream: "boundary", Doc: simpleDoc(map[string][][2]string{"dependencies": {{"lodash", "npm:lodash@^4.17.0"}, {"@types/node", "npm:@types/node@^18.0.0"}},
+			"devDependencies": {{"twin", "npm:lodash@^3.0.0"}}}, []string{"dependencies", "devDependencies"})}
+		c.run(func(reqs []resolve.RequirementVersion) []jUpdate {
+			var ups []jUpdate
+			for _, r := range reqs {
+				ups = append(ups, updateFromReq(rng, r))
+			}
+			return ups
+		})
+		out = append(out, c)
+	}
 	fixed("zero-updates", simpleDoc(map[string][][2]string{"dependencies": {{"lodash", "^4.0.0"}}}, []string{"dependencies"}), nil)
 
 	for i := 0; i < n; i++ {
